@@ -55,6 +55,8 @@ def extraction(unit, repo):
                 if p.selector == k or p.selector.startswith(k + " ") or p.selector.startswith(k + "{"):
                     opts = v
             toks = R.apply_item_rewrites([t.clone() for t in p.toks], log, opts)
+            if opts and opts.get("serde_names"):
+                toks = toks + R.r15_serde_names(p.toks, log)
             spaths = paths
             if src.get("paths"):
                 spaths = sorted([(k.split("::"), v) for k, v in src["paths"].items()] + paths, key=lambda kv: -len(kv[0]))
